@@ -31,6 +31,7 @@ REWRITE_CLASSES = {
     'V-SPEC': 'ghost text inserted: requires/ensures after the signature, invariant/decreases on the n-th loop, proof blocks at statement anchors, result naming `-> (r: T)`',
     'V-SUBST': 'declared exact-text replacement (listed verbatim in the evidence)',
     'V-CLOSURE': 'a closure argument gets explicit parameter types, a named result and an ensures clause; its body text is kept byte for byte (Verus derives no postcondition for unannotated closures)',
+    'V-ASSERT': '`assert!(E);` -> `{ let __c: bool = E; if !__c { rust_panic(); } }` (rust_panic requires false): the absence of the panic becomes an obligation',
     'V-ITER': 'declared desugaring of an iterator adapter / for-loop over a collection into an index loop (listed verbatim)',
 }
 
